@@ -91,6 +91,14 @@ def run_case(rs, ctx):
                 op["rev_view"] = True  # decisions and rewards arrive as reversed (negative-stride) views of the caller's arrays
                 ctx.count("reversed_view_batches")
             opB = dict(op, r=conv(binarizers.ALL[cur], op["d"], op["r"]))
+            if k == "partial_fit" and cur in ("thr_strict", "inv_strict") and not big_ints and rs.integers(2) == 0:
+                # the same batch is first offered with one reward the owner's binarizer refuses (ValueError out of partial_fit), then
+                # corrected and offered again: once the corrected batch is accepted every reward has been converted exactly once
+                bad = dict(op, r=list(op["r"]))
+                bad["r"][int(rs.integers(len(bad["r"])))] = -1.0
+                rbad = gen.run_ops(A, [bad])[0]
+                ops.append(dict(bad, expect="raises"))
+                ctx.count("refused_batches_offered_again" if isinstance(rbad, list) and rbad[:1] == ["EXC"] else "refused_batch_was_accepted")
         elif k in ("add_arm", "add_arm_b"):
             o = gen.gen_ops(rs, cfgA, sh, 1, ["add_arm"])
             if not o:
